@@ -30,7 +30,10 @@ fn edge_values() -> Vec<u64> {
     v
 }
 
-pub fn run(args: &[String]) {
+fn main() {
+    std::panic::set_hook(Box::new(|_| {})); // panics are caught per case and reported as data
+    let args: Vec<String> = std::env::args().collect();
+    let args = &args[1..];
     let seed: u64 = arg(args, "--seed", "1").parse().unwrap();
     let n: usize = arg(args, "--n", "2000").parse().unwrap();
     let mut rng = Rng::new(seed);
